@@ -385,8 +385,54 @@ def scoring_run(n, budget, chooser):
     return rec, None, scores
 
 
-def judge_scoring(col, n, budget, choices, rec, exc):
-    case = {"kind": "scoring", "n": n, "budget": budget, "choices": list(choices)}
+def entry_run(entry, n, budget, chooser):
+    """The same observation through the public entry points that own a budget of their own: the scorer
+    (max_triples) and the two ragged-array wrappers (max_combos)."""
+    from . import c05
+
+    sizes = [2, 1]
+    rec = []
+    orig = G.get_combination_at_sorted_index
+
+    def wrapper(index, nn, kk):
+        out = orig(index, nn, kk)
+        rec.append((int(index), int(nn), int(kk), tuple(int(x) for x in out)))
+        return out
+
+    m = [[[0.1 * t + 0.05 * e + 0.01 * p for e in range(sz)] for t in range(n)] for p, sz in enumerate(sizes)]
+    v = [[[0.5 + 0.01 * t + 0.02 * e for e in range(sz)] for t in range(n)] for p, sz in enumerate(sizes)]
+    D = [[0.0 if a == b else 1.0 + 0.1 * abs(a - b) for b in range(n)] for a in range(n)]
+    G.get_combination_at_sorted_index = wrapper
+    try:
+        rng = ScriptedGenerator(chooser)
+        try:
+            if entry == "scorer":
+                _screen, plates, keys = c05.screen_for(sizes)
+                from batchie.core import ThetaHolder
+                holder = ThetaHolder(n_thetas=n)
+                for t in range(n):
+                    mt, vt = {}, {}
+                    for p_ in range(len(sizes)):
+                        for e, k in enumerate(keys[p_]):
+                            mt[k], vt[k] = m[p_][t][e], v[p_][t][e]
+                    holder.add_theta(c05.TableTheta(mt, vt))
+                G.GaussianDBALScorer(max_triples=budget).score(
+                    plates={int(plates[p_].plate_id): plates[p_] for p_ in range(len(sizes))},
+                    distance_matrix=c05.make_distance_matrix(D), samples=holder, rng=rng, progress_bar=False)
+            elif entry == "hetero":
+                G.dbal_fast_gaussian_scoring_heteroscedastic([np.array(x) for x in m], [np.array(x) for x in v], np.array(D), rng, max_combos=budget)
+            else:
+                G.dbal_fast_gaussian_scoring_homoscedastic([np.array(x) for x in m], np.array([[row[0] for row in pv] for pv in v]), np.array(D), rng,
+                                                           max_combos=budget)
+        except Exception as exc:  # noqa: BLE001
+            return rec, exc, None
+    finally:
+        G.get_combination_at_sorted_index = orig
+    return rec, None, None
+
+
+def judge_scoring(col, n, budget, choices, rec, exc, entry="kernel"):
+    case = {"kind": "scoring", "n": n, "budget": budget, "choices": list(choices), "entry": entry}
     col.evaluations += 1
     col.transitions += 1
     total = math.comb(n, 3)
@@ -540,6 +586,10 @@ def plan(tier, seed):
             parts = max(1, n // 250)
             for p in range(parts):
                 items.append({"kind": "lattice", "n": n, "part": p, "parts": parts})
+    items.append({"kind": "cross-k", "ns": list(range(0, 13))})
+    for entry in ("scorer", "hetero", "homo"):
+        for n, budgets in ((4, (1, 3, 4, 5)), (5, (7, 10, 11)), (34, (5984, 6000, 5990 if tier == "thorough" else 6100))):
+            items.append({"kind": "entry-budget", "entry": entry, "n": n, "budgets": list(budgets)})
     ft = FULL_TREE_BUDGETS[tier]
     for n in (2, 3, 4, 5, 6):
         total = math.comb(n, 3)
@@ -558,6 +608,25 @@ def plan(tier, seed):
 
 def run_item(item, col, tier):
     kind = item["kind"]
+    if kind == "cross-k":
+        # the same n with every k, up and down, inside ONE process: state kept between calls (a cache keyed by n
+        # alone was seeded once) must not leak from one k to another; independent of how the pool schedules items
+        for n in item["ns"]:
+            for k in (0, 1, 2, 3, 4, 3, 2, 1, 0, 4, 1, 3):
+                run_full(col, n, k)
+        return
+    if kind == "entry-budget":
+        for budget in item["budgets"]:
+            ch = Chooser()
+            rec, exc, _ = entry_run(item["entry"], item["n"], budget, ch)
+            col.states += 1
+            # one kernel call per scorer sub-group: judge the calls separately (each must obey the budget clause)
+            total = math.comb(item["n"], 3)
+            per_call = min(total, budget)
+            calls = [rec[i:i + per_call] for i in range(0, len(rec), per_call)] if rec and len(rec) % per_call == 0 else [rec]
+            for call in calls:
+                judge_scoring(col, item["n"], budget, ch.choices[:8], call, exc, entry=item["entry"])
+        return
     if kind == "full":
         for n in item["ns"]:
             run_full(col, n, item["k"])
@@ -577,6 +646,10 @@ def replay(case, col):
         check_one(col, index, n, k, expected=ref_unrank(index, n, k))
     elif case["kind"] == "scoring":
         ch = Chooser(case["choices"])
+        if case.get("entry", "kernel") != "kernel":
+            rec, exc, _s = entry_run(case["entry"], case["n"], case["budget"], Chooser())
+            judge_scoring(col, case["n"], case["budget"], [], rec, exc, entry=case["entry"])
+            return
         rec, exc, _s = scoring_run(case["n"], case["budget"], ch)
         judge_scoring(col, case["n"], case["budget"], ch.choices, rec, exc)
     else:
